@@ -136,6 +136,14 @@ class LeaseCheckingCrawler(ShareCrawler):
         # the keys individually
         for k in so_far:
             self.state["cycle-to-date"].setdefault(k, so_far[k])
+        # get_state() (and therefore the saved state file) carries the
+        # histogram as a JSON-safe list of (minage, maxage, count): turn it
+        # back into the dict that process_share() updates.
+        lah = self.state["cycle-to-date"]["lease-age-histogram"]
+        if isinstance(lah, list):
+            self.state["cycle-to-date"]["lease-age-histogram"] = {
+                (minage, maxage): count for (minage, maxage, count) in lah
+            }
 
     def create_empty_cycle_dict(self):
         recovered = self.create_empty_recovered_dict()
